@@ -145,10 +145,13 @@ def run(rep, prop=PROP):
     for sc, b, v in results:
         cl = classify(sc, v)
         if any(k == 'harness' for k, _ in cl):
+            # the scenario could not do its job (a timeout on a busy machine ...) and gave up half way, without closing
+            # what it had opened: what it shows about the model correspondence and about left-over descriptors is void
+            # if a second run is clean; a close of a number netpoll does not own counts in any case
             again = [(s2, b2, v2) for s2, b2, v2 in retried if s2['scenario'] == sc['scenario'] and s2['seed'] == sc['seed'] + 500000]
-            if again and not any(k == 'harness' for k, _ in classify(*[again[0][0], again[0][2]])):
+            if again and not classify(again[0][0], again[0][2]) or (again and all(k.startswith('probe') for k, _ in classify(again[0][0], again[0][2]))):
                 flaky += 1
-                cl = [c for c in cl if c[0] != 'harness']
+                cl = [c for c in cl if c[0] not in ('harness', 'conform', 'leak')]
                 final.append(again[0])
         final.append((sc, b, v))
         for kind, text in cl:
